@@ -40,9 +40,14 @@ class Program:
 
 
 class Gen:
-    def __init__(self, rng: random.Random, profile: str = "dedup"):
+    def __init__(self, rng: random.Random, profile: str = "dedup", acc_specs=None, vt="i32", max_launches=12):
+        """acc_specs: optional list of dicts {name, fields:[..], launch_fields:[..], decl: "<accfg.accelerator op text>"}
+        describing *real* accelerators (C04); vt: value type of configuration values ("i32" | "i64")."""
         self.rng = rng
         self.profile = profile
+        self.acc_specs = acc_specs
+        self.vt = vt
+        self.max_launches = max_launches
         self.n = 0
         self.lines: list[str] = []
         self.args: list[ArgSpec] = []
@@ -70,13 +75,17 @@ class Gen:
     # ---------------------------------------------------------------------------------
     def program(self) -> Program:
         rng = self.rng
-        n_acc = 1 if rng.random() < 0.7 else 2
-        self.accs = {}
-        for a in range(n_acc):
-            nf = rng.randint(2, 5)
-            self.accs[f"acc{a}"] = [chr(ord("A") + i) for i in range(nf)]
-        # per-accelerator launch fields (0 or 1)
-        self.launch_fields = {a: (["launch"] if rng.random() < 0.5 else []) for a in self.accs}
+        if self.acc_specs:
+            self.accs = {sp["name"]: list(sp["fields"]) for sp in self.acc_specs}
+            self.launch_fields = {sp["name"]: list(sp["launch_fields"]) for sp in self.acc_specs}
+        else:
+            n_acc = 1 if rng.random() < 0.7 else 2
+            self.accs = {}
+            for a in range(n_acc):
+                nf = rng.randint(2, 5)
+                self.accs[f"acc{a}"] = [chr(ord("A") + i) for i in range(nf)]
+            # per-accelerator launch fields (0 or 1)
+            self.launch_fields = {a: (["launch"] if rng.random() < 0.5 else []) for a in self.accs}
         n_mark = rng.randint(2, 5)
         pool_i32 = []
         for i in range(n_mark):
@@ -84,7 +93,7 @@ class Gen:
             self.args.append(ArgSpec(nm, "i32", "marker"))
             pool_i32.append(nm)
         self.max_depth = 3
-        self.budget = rng.randint(3, 12)  # launches
+        self.budget = rng.randint(3, self.max_launches)  # launches
         self.emit(2, "%cst0 = arith.constant 0 : i32")
         self.emit(2, "%cst1 = arith.constant 7 : i32")
         pool_i32 += ["%cst0", "%cst1"]
@@ -93,8 +102,16 @@ class Gen:
         n_top = rng.randint(2, 6)
         self.block(2, scope, depth=0, n_stmts=n_top, in_loop=False)
         self.emit(2, "func.return")
+        if self.vt != "i32":
+            self.lines = [ln.replace("i32", self.vt) for ln in self.lines]
+            self.decl_needed = {d.replace("i32", self.vt) for d in self.decl_needed}
+            for a in self.args:
+                if a.type == "i32":
+                    a.type = self.vt
         header = ["builtin.module {"]
-        for a, fields in self.accs.items():
+        for sp in self.acc_specs or []:
+            header.append("  " + sp["decl"])
+        for a, fields in ({} if self.acc_specs else self.accs).items():
             fd = ", ".join(f"{f} = {0x3C0 + 16 * int(a[3:]) + i} : i32" for i, f in enumerate(fields))
             lf = ", ".join(f"{f} = {0x3C0 + 16 * int(a[3:]) + 14} : i32" for f in self.launch_fields[a])
             header.append(
@@ -174,10 +191,12 @@ class Gen:
         t = self.fresh("t")
         lfs = self.launch_fields[acc]
         if lfs:
-            lv = rng.choice(scope["i32"][:4])
+            lvs = [rng.choice(scope["i32"][:4]) for _ in lfs]
+            names = ", ".join(f'"{n}"' for n in lfs)
+            tys = ", ".join("i32" for _ in lfs)
             self.emit(
                 ind,
-                f'{t} = "accfg.launch"({lv}, {s}) <{{param_names = ["launch"], accelerator = "{acc}"}}> : (i32, !accfg.state<"{acc}">) -> !accfg.token<"{acc}">',
+                f'{t} = "accfg.launch"({", ".join(lvs)}, {s}) <{{param_names = [{names}], accelerator = "{acc}"}}> : ({tys}, !accfg.state<"{acc}">) -> !accfg.token<"{acc}">',
             )
         else:
             self.emit(
@@ -224,7 +243,7 @@ class Gen:
             return v
 
         lbv, ubv, stv = mat(lb), mat(ub), mat(step)
-        iv = self.fresh("i")
+        iv = self.fresh("iv")
         carried = rng.random() < 0.35
         inner = {"i32": list(scope["i32"]), "index": list(scope["index"]) + [iv], "states": {}}
         self.skel.append("F(")
@@ -351,8 +370,8 @@ class Gen:
         self.skel.append("t")
 
 
-def gen_program(rng: random.Random, profile="dedup") -> Program:
-    return Gen(rng, profile).program()
+def gen_program(rng: random.Random, profile="dedup", **kw) -> Program:
+    return Gen(rng, profile, **kw).program()
 
 
 TRIPS = [0, 1, 2, 3, 5]
